@@ -6,3 +6,4 @@ import LyModel.Props.C12
 import LyModel.Props.C18
 import LyModel.Props.C03
 import LyModel.Props.C15
+import LyModel.Props.C01Lyb
